@@ -67,6 +67,8 @@ type FunDecl struct {
 }
 
 type TB struct {
+	lastViaSolve bool
+	structural   map[int]bool
 	negSk map[int]*Term
 	tab   map[string]*Term
 	n     int
@@ -1166,7 +1168,11 @@ func (tb *TB) unifyFor(pat, v, t *Term, depth int) (*Term, bool) {
 			}
 		}
 	}
-	return tb.solveFor(pat, v, t)
+	r, ok := tb.solveFor(pat, v, t)
+	if ok {
+		tb.lastViaSolve = true
+	}
+	return r, ok
 }
 
 // matchPoints: values for the bound variable v of a quantifier body under which some array read f(arg(v)) of the body
@@ -1183,9 +1189,16 @@ func (tb *TB) matchPoints(body, v *Term, apps map[string][]*Term) []*Term {
 		seen[x.id] = true
 		if x.op == "app" && len(x.args) == 1 && len(apps[x.name]) > 0 && tb.mentions(x.args[0], v) {
 			for _, t := range apps[x.name] {
+				tb.lastViaSolve = false
 				if p, ok := tb.unifyFor(x.args[0], v, t, 0); ok && !p.hasBound && !got[p.id] {
 					got[p.id] = true
 					out = append(out, p)
+					if !tb.lastViaSolve {
+						if tb.structural == nil {
+							tb.structural = map[int]bool{}
+						}
+						tb.structural[p.id] = true // every non-variable part of the pattern matched syntactically
+					}
 				}
 			}
 		}
@@ -1324,7 +1337,13 @@ func (tb *TB) InstAll(h *Term, points []*Term, apps map[string][]*Term, depth in
 		for _, mp := range mps {
 			sz[mp.id] = tb.size(mp, 64)
 		}
-		sort.SliceStable(mps, func(i, j int) bool { return sz[mps[i].id] < sz[mps[j].id] })
+		sort.SliceStable(mps, func(i, j int) bool {
+			si, sj := tb.structural[mps[i].id], tb.structural[mps[j].id]
+			if si != sj {
+				return si // syntactic matches of the whole pattern before arithmetic solutions
+			}
+			return sz[mps[i].id] < sz[mps[j].id]
+		})
 		for _, mp := range mps {
 			if len(pts) < 10 {
 				pts = append(pts, mp)
